@@ -1,6 +1,6 @@
 (* Properties/C16.v -- Macro 05/06 compaction and GS1 start are exact and lossless (the parts that are theorems). *)
 From Coq Require Import Arith NArith List Bool.
-From DM Require Import Generated.Symbols Generated.ModeTables Model.Outcome Model.SymbolList Model.Planner Model.Enc Model.Dec
+From DM Require Import Generated.Symbols Generated.ModeTables Model.Outcome Model.SymbolList Model.Planner Model.PlannerRun Model.Enc Model.Dec
   Model.Api Spec.Stream16022 Proofs.EncLocal Proofs.EncTop Proofs.DecMacro Proofs.DecScript Proofs.EncAscii Proofs.MacroAscii Proofs.EncAB.
 Import ListNotations.
 Local Open Scope N_scope.
@@ -116,3 +116,11 @@ Example C16_example_stripped :
   use_macro_if_possible (with_size (MACRO06_HEAD ++ [65; 66] ++ MACRO_TRAIL) [] 63 false)
   = Ok (strip_to (with_size (MACRO06_HEAD ++ [65; 66] ++ MACRO_TRAIL) [] 63 false) [65; 66] 237).
 Proof. reflexivity. Qed.
+
+(* the hypotheses of (vi) are satisfiable: an enveloped message with a Latin-1 body under the mode set {ASCII, Base256} *)
+Example C16_example_ab :
+  match encode_data_internal (optimize_fn stable_sorter) (MACRO05_HEAD ++ [65; 200; 201; 202; 203; 204; 66] ++ MACRO_TRAIL) sl_default None 33 true false with
+  | Ok (cw, _) => hd 0 cw = 236 /\ decode_data cw = Ok (MACRO05_HEAD ++ [65; 200; 201; 202; 203; 204; 66] ++ MACRO_TRAIL)
+  | _ => False
+  end.
+Proof. vm_compute. split; reflexivity. Qed.
